@@ -57,9 +57,11 @@ Definition parse_uint (bits : N) (s : string) : option N :=
 (* strconv.ParseInt(s, 10, bits): optional sign, digits, range check *)
 Definition parse_int (bits : N) (s : string) : option Z :=
   match s with
-  | String "-" r => n <- parse_N r ;; if (n <=? 2 ^ (bits - 1))%N then Some (- Z.of_N n)%Z else None
-  | String "+" r => n <- parse_N r ;; if (n <? 2 ^ (bits - 1))%N then Some (Z.of_N n) else None
-  | _ => n <- parse_N s ;; if (n <? 2 ^ (bits - 1))%N then Some (Z.of_N n) else None
+  | String c r =>
+      if Ascii.eqb c "-" then n <- parse_N r ;; if (n <=? 2 ^ (bits - 1))%N then Some (- Z.of_N n)%Z else None
+      else if Ascii.eqb c "+" then n <- parse_N r ;; if (n <? 2 ^ (bits - 1))%N then Some (Z.of_N n) else None
+      else n <- parse_N s ;; if (n <? 2 ^ (bits - 1))%N then Some (Z.of_N n) else None
+  | EmptyString => None
   end.
 Definition print_Z (z : Z) : string :=
   match z with
@@ -402,8 +404,8 @@ Section AST.
   Variable hleaf_seg : hleaf -> seg.
   Variable hleaf_json : hleaf -> json.   (* the module's own fields, without the inline key *)
 
-  (* [inl]: written on the wrapper's line ("not ssh", "@a ssh") instead of in a block *)
-  Inductive matcher := MLeaf (x : mleaf) | MNot (inl : bool) (ms : list matcher).
+  (* [il]: written on the wrapper's line ("not ssh", "@a ssh") instead of in a block *)
+  Inductive matcher := MLeaf (x : mleaf) | MNot (il : bool) (ms : list matcher).
   Definition mset : Type := string * bool * list matcher.
   Inductive handler :=
   | HLeaf (x : hleaf)
@@ -419,18 +421,18 @@ Section AST.
     match m with MLeaf x => mleaf_name x | MNot _ _ => "not" end.
 
   (* ---- printer to segments / tokens *)
-  Definition set_seg (w : string) (inl : bool) (entries : list seg) : seg :=
-    match inl, entries with
+  Definition set_seg (w : string) (il : bool) (entries : list seg) : seg :=
+    match il, entries with
     | true, [Seg ws hb body] => Seg (w :: ws) hb body
     | _, _ => Seg [w] true entries
     end.
   Fixpoint matcher_seg (m : matcher) : seg :=
     match m with
     | MLeaf x => mleaf_seg x
-    | MNot inl ms => set_seg "not" inl (map matcher_seg ms)
+    | MNot il ms => set_seg "not" il (map matcher_seg ms)
     end.
   Definition mset_seg (s : mset) : seg :=
-    match s with (n, inl, ms) => set_seg n inl (map matcher_seg ms) end.
+    match s with (n, il, ms) => set_seg n il (map matcher_seg ms) end.
   Definition mt_segs (mt : option dur) : list seg :=
     match mt with Some d => [Seg ["matching_timeout"; print_dur d] false []] | None => [] end.
   Fixpoint handler_seg (h : handler) : seg :=
@@ -540,3 +542,11 @@ Fixpoint seg_wf (s : seg) : bool :=
       (if hb then true else match body with [] => true | _ => false end) &&
       forallb seg_wf body
   end.
+
+Arguments MLeaf {mleaf} x.
+Arguments MNot {mleaf} il ms.
+Arguments HLeaf {mleaf hleaf} x.
+Arguments HTee {mleaf hleaf} hs.
+Arguments HSubroute {mleaf hleaf} mt sets routes.
+Arguments RBlock {mleaf hleaf} rb_mt rb_sets rb_routes.
+Arguments Server {mleaf hleaf} sv_listen sv_block.
